@@ -88,7 +88,10 @@ def _base(o):
 
 
 def _addr(st, name):
-    return st.get(st.env[name]).addr
+    v = st.env[name]
+    if isinstance(v, VDyn):
+        return t.app('ref', t.INT, v.t)      # a user-supplied container
+    return st.get(v).addr
 
 
 def _struct_fold(LE, o0, sl, k):
@@ -202,3 +205,121 @@ def register_composites(src):
         Case('ok', 'return', lambda pre: t.TRUE, ensures=_struct_parse_ok, rkind=rk_dyn, modifies=['stream']),
         Case('fails', 'raise', lambda pre: t.TRUE, ensures=_struct_parse_bad, modifies=['stream']),
     ], loops={'for sc in self.subcons': LoopSpec(_struct_parse_inv, tags=T, modifies=())}, tags=T)
+    register_struct_build(src)
+
+
+# ================================================================================================ Struct._build
+prelude.DATATYPES += """(declare-datatypes ((BS 0)) (((mkBS (bs_ok Bool) (bs_buf (Array Int Int)) (bs_len Int) (bs_pos Int) (bs_H (Array Int (Array String Val))) (bs_D (Array Int (Array String Bool)))))))
+"""
+t.SORT_SMT['BS'] = 'BS'
+
+
+def define_build_folds(src):
+    # value handed to member m when building from the container at address oa (None for flagbuildnone members that are absent)
+    prelude.define('bval', """(define-fun bval ((m Int) (H (Array Int (Array String Val))) (D (Array Int (Array String Bool))) (oa Int)) Val
+  (ite (and ((_ is VStr) (sc_name m)) (select (select D oa) (sval (sc_name m)))) (select (select H oa) (sval (sc_name m))) VNone))""", deps=['sc_name'])
+    prelude.define('bhas', """(define-fun bhas ((m Int) (D (Array Int (Array String Bool))) (oa Int)) Bool
+  (or (sc_fbn m) (and ((_ is VStr) (sc_name m)) (select (select D oa) (sval (sc_name m))))))""", deps=['sc_name', 'sc_fbn'])
+    prelude.define('bstep', """(define-fun bstep ((m Int) (s BS) (base Int) (c Int) (oa Int)) BS
+  (ite (not (bs_ok s)) s
+  (let ((v (bval m (bs_H s) (bs_D s) oa)))
+  (let ((H1 (ite (truthy (sc_name m)) (store (bs_H s) c (store (select (bs_H s) c) (sval (sc_name m)) v)) (bs_H s)))
+        (D1 (ite (truthy (sc_name m)) (store (bs_D s) c (store (select (bs_D s) c) (sval (sc_name m)) true)) (bs_D s))))
+  (ite (and (bhas m (bs_D s) oa) (B_ok m v (+ (bs_pos s) base) H1 D1 c))
+    (let ((n (B_len m v (+ (bs_pos s) base) H1 D1 c)) (W (B_bytes m v (+ (bs_pos s) base) H1 D1 c)) (ret (B_ret m v (+ (bs_pos s) base) H1 D1 c))
+          (H2 (B_H m v (+ (bs_pos s) base) H1 D1 c)) (D2 (B_D m v (+ (bs_pos s) base) H1 D1 c)))
+      (mkBS true (ite (> n 0) (awrite (bs_buf s) (bs_len s) (bs_pos s) W 0 n) (bs_buf s))
+            (ite (> n 0) (ite (>= (bs_len s) (+ (bs_pos s) n)) (bs_len s) (+ (bs_pos s) n)) (bs_len s))
+            (+ (bs_pos s) n)
+            (ite (truthy (sc_name m)) (store H2 c (store (select H2 c) (sval (sc_name m)) ret)) H2)
+            (ite (truthy (sc_name m)) (store D2 c (store (select D2 c) (sval (sc_name m)) true)) D2)))
+    (mkBS false (bs_buf s) (bs_len s) (bs_pos s) (bs_H s) (bs_D s)))))))""",
+                   deps=['bval', 'bhas', 'B_ok', 'B_len', 'B_bytes', 'B_ret', 'B_H', 'B_D', 'truthy', 'sc_name', 'awrite'])
+    prelude.define('bfold', """(define-fun-rec bfold ((sl Int) (k Int) (s0 BS) (base Int) (c Int) (oa Int)) BS
+  (ite (<= k 0) s0 (bstep (sl_at sl (- k 1)) (bfold sl (- k 1) s0 base c oa) base c oa)))""", deps=['bstep', 'sl_at'])
+
+
+def bs(field, s):
+    sort = {'bs_ok': t.BOOL, 'bs_buf': t.ARR, 'bs_len': t.INT, 'bs_pos': t.INT, 'bs_H': 'Heap', 'bs_D': 'Dom'}[field]
+    return t.app(field, sort, s)
+
+
+def _bfold(LE, sl, k, base):
+    o = LE.get(LE.env['stream'])
+    s0 = t.app('mkBS', 'BS', t.TRUE, o.buf, o.len, o.pos, LE.ghost['H'], LE.ghost['D'])
+    return t.app('bfold', 'BS', sl, k, s0, base, _addr(LE, 'context'), _addr(LE, 'obj'))
+
+
+def _bunfold(LE, sl, k, base):
+    o = LE.get(LE.env['stream'])
+    s0 = t.app('mkBS', 'BS', t.TRUE, o.buf, o.len, o.pos, LE.ghost['H'], LE.ghost['D'])
+    c, oa = _addr(LE, 'context'), _addr(LE, 'obj')
+    prev = t.app('bfold', 'BS', sl, t.sub(k, t.ONE), s0, base, c, oa)
+    step = t.app('bstep', 'BS', t.app('sl_at', t.INT, sl, t.sub(k, t.ONE)), prev, base, c, oa)
+    return t.implies(t.ge(k, t.ONE), t.eq(t.app('bfold', 'BS', sl, k, s0, base, c, oa), step))
+
+
+def _struct_build_inv(L):
+    pre = L.extra['pre']
+    o0 = pre.obj('stream')
+    sl = pre.self.fields['subcons'].ident
+    base = _base(o0)
+    F = _bfold(L.entry, sl, L.k, base)
+    o = L.obj('stream')
+    hints = [_bunfold(L.entry, sl, L.k, base)] if L.k.op != 'int' else []
+    return [('state-after-k-members-is-the-specification-fold', t.and_(bs('bs_ok', F), t.eq(o.buf, bs('bs_buf', F)), t.eq(o.len, bs('bs_len', F)), t.eq(o.pos, bs('bs_pos', F)),
+                                                                    t.eq(L.st.ghost['H'], bs('bs_H', F)), t.eq(L.st.ghost['D'], bs('bs_D', F))), None, hints),
+            ('locals-keep-their-identity', t.and_(t.eq(_addr(L.st, 'context'), _addr(L.entry, 'context')), t.eq(_addr(L.st, 'obj'), _addr(L.entry, 'obj'))))]
+
+
+def _le_build(view):
+    LE = view.st.ghost.get('LE')
+    if LE is None:
+        from pyvc.state import State
+        LE = State()
+        LE.ghost = {'H': fresh('LE_H', 'Heap'), 'D': fresh('LE_D', 'Dom'), 'alloc': fresh('LE_alloc', t.INT)}
+        LE.env = {'context': LE.alloc(OContainer(fresh('LE_ctx', t.INT)), 'container'), 'obj': LE.alloc(OContainer(fresh('LE_obj', t.INT)), 'container')}
+        o = view.obj('stream')
+        LE.env['stream'] = LE.alloc(o.replace(pos=fresh('LE_pos', t.INT), buf=fresh('LE_buf', t.ARR), ln=fresh('LE_len', t.INT)), 'stream')
+        view.st.ghost['LE'] = LE
+    return LE
+
+
+def _struct_build_ok(pre, post):
+    o0, o2 = pre.obj('stream'), post.obj('stream')
+    sl = pre.self.fields['subcons'].ident
+    n = t.app('sl_len', t.INT, sl)
+    LE = _le_build(post)
+    if post.st.ghost.get('loop_k') is not None and post.st.ghost.get('left_by_break'):
+        return []
+    F = _bfold(LE, sl, n, _base(o0))
+    c0 = pre.obj('context').addr
+    c1, oa = _addr(LE, 'context'), _addr(LE, 'obj')
+    H0, D0, a0 = pre.st.ghost['H'], pre.st.ghost['D'], pre.st.ghost['alloc']
+    le_o = LE.get(LE.env['stream'])
+    key = t.var('key!', t.STR)
+    f_le = t.T('Fields', 'select', (LE.ghost['H'], c1))
+    d_le = t.T('Keys', 'select', (LE.ghost['D'], c1))
+    f_ob = t.T('Fields', 'select', (LE.ghost['H'], oa))
+    d_ob = t.T('Keys', 'select', (LE.ghost['D'], oa))
+    supplied = t.forall([key], t.implies(t.T(t.BOOL, 'select', (d_ob, key)),
+                                         t.and_(t.T(t.BOOL, 'select', (d_le, key)), t.eq(t.T(t.VAL, 'select', (f_le, key)), t.T(t.VAL, 'select', (f_ob, key))))),
+                        pats=[[t.T(t.BOOL, 'select', (d_ob, key))]])
+    stopped = post.st.ghost.get('stopped', t.FALSE)
+    return [('all-supplied-siblings-are-in-the-scope-before-the-first-member-is-built', supplied, ('C07',)),
+            ('nested-scope-is-fresh', t.and_(t.ge(c1, a0), t.ne(c1, c0), t.ne(c1, oa)), ('C07', 'C17')),
+            ('stream-untouched-before-the-first-member', t.and_(t.eq(le_o.buf, o0.buf), t.eq(le_o.len, o0.len), t.eq(le_o.pos, o0.pos)), ('C03',)),
+            ('members-built-in-declaration-order-each-appending-after-the-previous',
+             t.implies(t.not_(stopped), t.and_(bs('bs_ok', F), t.eq(o2.buf, bs('bs_buf', F)), t.eq(o2.len, bs('bs_len', F)), t.eq(o2.pos, bs('bs_pos', F)))), ('C03', 'C07', 'C01')),
+            ('scope-holds-what-each-member-build-returned', t.implies(t.not_(stopped), t.and_(t.eq(post.st.ghost['H'], bs('bs_H', F)), t.eq(post.st.ghost['D'], bs('bs_D', F)))), ('C07', 'C01')),
+            ('returns-the-scope', t.eq(post.eng.to_dyn(post.result, post.st), t.app('VRef', t.VAL, c1)), ('C03', 'C01'))]
+
+
+def register_struct_build(src):
+    define_build_folds(src)
+    fcontract('Struct', '_build', [
+        Case('ok', 'return', lambda pre: t.TRUE, ensures=_struct_build_ok, rkind=rk_dyn, modifies=['stream']),
+        Case('fails', 'raise', lambda pre: t.TRUE, modifies=['stream']),
+    ], loops={'for sc in self.subcons': LoopSpec(_struct_build_inv, tags=T)}, tags=T, sequential_build=False,
+        requires=lambda pre: [('a-supplied-container-already-exists', t.implies(t.app('(_ is VRef)', t.BOOL, pre['obj'].t),
+                                                                                   t.and_(t.le(t.ZERO, t.app('ref', t.INT, pre['obj'].t)), t.lt(t.app('ref', t.INT, pre['obj'].t), pre.st.ghost['alloc']))))])
